@@ -317,6 +317,12 @@ impl LdapResult {
 #[derive(Clone, Debug)]
 pub(crate) struct LdapResultExt(pub LdapResult, pub Exop, pub SaslCreds);
 
+/// Result conversion as performed for every single-result operation, for the verification harness.
+#[cfg(ldap3_verif)]
+pub fn verif_result_ext(t: Tag) -> Option<(LdapResult, Exop, Option<Vec<u8>>)> {
+    LdapResultExt::try_from_tag(t).map(|r| (r.0, r.1, (r.2).0))
+}
+
 impl From<Tag> for LdapResultExt {
     fn from(t: Tag) -> LdapResultExt {
         LdapResultExt::try_from_tag(t).expect("ldap result")
